@@ -72,36 +72,6 @@ fn c01_boolean_builder_append_step() {
     std::mem::forget(b);
 }
 
-//@ tier: thorough
-//@ timeout: 3000
-//@ functions: arrow_buffer::BooleanBufferBuilder::{append_packed_range, append_buffer}, bit_util::apply_bitwise_binary_op
-//@ bound: builder state of 11 arbitrary bits, source of 3 arbitrary bytes, any 13-bit range inside it (start 0..=11; the sizes are concrete because buffer growth with symbolic sizes exceeds the memory cap): appended bits equal the source bits of the range, earlier bits unchanged, invariant preserved; unwind 8
-//@ assume: representation invariant of BooleanBufferBuilder
-//@ stub: alloc::fmt::format -> empty String
-#[kani::proof]
-#[kani::unwind(8)]
-#[kani::stub(alloc::fmt::format, stub_format)]
-fn c01_boolean_builder_append_packed_range_step() {
-    let (mut b, before, len) = any_builder();
-    kani::assume(len == 11); // concrete sizes: the buffer growth is a realloc + memcpy of that size (symbolic: > 12 GB)
-    let src: [u8; 3] = kani::any();
-    let s: usize = kani::any();
-    kani::assume(s <= 11);
-    let e = s + 13;
-    b.append_packed_range(s..e, &src);
-    assert!(b.len() == len + (e - s), "length advanced by the range length");
-    check_invariant(&b);
-    let i: usize = kani::any();
-    kani::assume(i < len + (e - s));
-    if i < len {
-        assert!(b.get_bit(i) == bit(&before, i), "existing bits unchanged");
-    } else {
-        assert!(b.get_bit(i) == bit(&src, s + i - len), "appended bit = source bit");
-    }
-    kani::cover!(s % 8 == 5);
-    kani::cover!(s == 0);
-    std::mem::forget(b);
-}
 
 //@ tier: quick
 //@ functions: arrow_buffer::BooleanBufferBuilder::{truncate, resize, set_bit, finish}, BooleanBuffer::new
